@@ -41,6 +41,17 @@ macro_rules! define_hasher {
             }
         }
 
+        /// Verification hooks: observe the chaining value and length, overwrite the length.
+        #[cfg(cryptocorrosion_verif)]
+        impl $name {
+            pub fn verif_get_state(&self) -> ([u8; 128], usize) {
+                (self.state.finalize(), self.datalen)
+            }
+            pub fn verif_set_datalen(&mut self, n: usize) {
+                self.datalen = n;
+            }
+        }
+
         impl Default for $name {
             fn default() -> Self {
                 Self {
